@@ -13,16 +13,15 @@ FRAME = f'[C01:frame] within({IN0}, {IN1})'
 
 
 def annotate_closure(it, prefix, param, pty, rty, ens):
-    """`prefix|a| body)` -> `prefix|a: pty| -> (r: rty) ensures ens { body })` by insertions only (Verus closures carry
-    no implicit postcondition); `body` is left untouched and must be followed by `)` or `,`"""
-    head = f'{prefix}|{param}'
-    it.insert_after(head, f': {pty}')
-    anchor = head + ins(f': {pty}') + '|'
-    it.insert_after(anchor, f' -> (r: {rty}) ensures {ens} {{')
-    k = it.text.index(anchor) + len(anchor)
-    k = it.text.index(INS_C, k) + len(INS_C)
+    """first not yet annotated `prefix|a| body)` -> `prefix|a: pty| -> (r: rty) ensures ens { body })`, by insertions only
+    (Verus closures carry no implicit postcondition); `body` is left untouched"""
+    head = f'{prefix}|{param}|'
+    k = it.text.find(head)
+    if k < 0:
+        raise Lost(f'{it._where("")}: closure `{head}` not found')
+    a = k + len(prefix) + 1 + len(param)
     # end of the closure body: the `)` closing the call that `prefix` opened
-    depth, j = 0, k
+    depth, j = 0, a + 1
     while True:
         c = it.text[j]
         if c in '([{':
@@ -32,7 +31,8 @@ def annotate_closure(it, prefix, param, pty, rty, ens):
                 break
             depth -= 1
         j += 1
-    it.text = it.text[:j] + ins(' }') + it.text[j:]
+    t = it.text
+    it.text = t[:a] + ins(f': {pty}') + '|' + ins(f' -> (r: {rty}) ensures {ens} {{') + t[a + 1:j] + ins(' }') + t[j:]
 
 
 SPEC_TEXT = core.rd('specs/cfi_entries.rs')
@@ -160,13 +160,14 @@ SECTION_GHOST = """    /// ghost: which standard governs the section: true = `.e
     spec fn asz(&self) -> u8;"""
 
 DEFAULT_MODELS = """
-// models of `#[derive(Default)]` (R-ATTR drops the derive; Verus has no spec for it): all-None / false
-impl Default for Augmentation {
+// models of `#[derive(Default)]` (R-ATTR drops the derive; Verus has no spec for it): all-None / false.
+// Inherent fns (not `impl Default`) so that the contract may name the private fields; `T::default()` resolves to them.
+impl Augmentation {
     fn default() -> (r: Self)
         ensures r == (Augmentation { lsda: None, personality: None, fde_address_encoding: None, is_signal_trampoline: false })
     { Augmentation { lsda: None, personality: None, fde_address_encoding: None, is_signal_trampoline: false } }
 }
-impl Default for AugmentationData {
+impl AugmentationData {
     fn default() -> (r: Self) ensures r == (AugmentationData { lsda: None })
     { AugmentationData { lsda: None } }
 }
@@ -243,7 +244,13 @@ impl<T> vstd::std_specs::convert::FromSpecImpl<T> for {ty}<T> {{
     us.clean()
     sk.add(M, us)
     for ty, eh in [('DebugFrame', 'false'), ('EhFrame', 'true')]:
-        it = cfi.item(r'^impl<R: Reader> _UnwindSectionPrivate<R> for %s<R>' % ty, label=f'_UnwindSectionPrivate for {ty}').clean().own(OWN)
+        it = cfi.item(r'^impl<R: Reader> _UnwindSectionPrivate<R> for %s<R>' % ty, label=f'_UnwindSectionPrivate for {ty}')
+        # R-PARAM: Verus rejects the wildcard pattern `_` as a fn parameter; give it a name (no effect on meaning)
+        if ty == 'DebugFrame':
+            it.custom('R-PARAM', 'fn resolve_cie_offset(&self, _: R::Offset', 'fn resolve_cie_offset(&self, _verif_unused: R::Offset')
+        else:
+            it.custom('R-PARAM', 'fn is_cie(_: Format', 'fn is_cie(_verif_unused: Format')
+        it.clean().own(OWN)
         it.insert_members(f'    open spec fn is_eh() -> bool {{ {eh} }}\n    closed spec fn sec(&self) -> RView {{ self.section.rv() }}\n    closed spec fn asz(&self) -> u8 {{ self.address_size }}')
         sk.add(M, it)
         sk.add(M, cfi.item(r'^impl<R: Reader> UnwindSection<R> for %s<R>' % ty).clean())
@@ -254,8 +261,9 @@ impl<T> vstd::std_specs::convert::FromSpecImpl<T> for {ty}<T> {{
     sk.add(M, cfi.item(r'^pub struct Augmentation \{').clean())
     sk.add(M, cfi.item(r'^struct AugmentationData \{').clean())
     sk.add(M, DEFAULT_MODELS, label='derive(Default) models')
-    sk.add(M, cfi.item(r'^pub struct CommonInformationEntry<R, Offset').clean(rejrec=['R', 'Offset']))
-    sk.add(M, cfi.item(r'^pub struct FrameDescriptionEntry<R, Offset').clean(rejrec=['R', 'Offset']))
+    # derive(Clone) would construct values outside the verifier's view of the type invariant: keep it external
+    sk.add(M, cfi.item(r'^pub struct CommonInformationEntry<R, Offset').clean(rejrec=['R', 'Offset']).prepend('#[verifier::external_derive(Clone)]'))
+    sk.add(M, cfi.item(r'^pub struct FrameDescriptionEntry<R, Offset').clean(rejrec=['R', 'Offset']).prepend('#[verifier::external_derive(Clone)]'))
     sk.add(M, cfi.item(r'^pub struct PartialFrameDescriptionEntry<').clean(rejrec=['R', 'Section']))
     sk.add(M, cfi.item(r'^pub enum CieOrFde<').clean(rejrec=['R', 'Section']))
     sk.add(M, TYPE_INVS + SPEC_TEXT.split(SPEC_MARK)[1], label='ghost(entries)')
@@ -269,16 +277,305 @@ impl<T> vstd::std_specs::convert::FromSpecImpl<T> for {ty}<T> {{
                   f'[C05:prefix][C10:view] res matches Ok(Some(p)) ==> prefix_is(p, {B0}, section.sec(), Section::is_eh()) && adv({B0}, {IN1}, px_ilen({B0}) + px_len({B0}))',
                   f'[C05:prefix-terminator] res matches Ok(None) ==> px_len({B0}) == 0 && adv({B0}, {IN1}, px_ilen({B0}))',
                   f'[C05:prefix-terminator] res is Ok && px_len({B0}) == 0 ==> res matches Ok(None)',
-                  f'[C05:prefix-total] {B0}.len >= 4 && {B0}.u(0, 4) < 0xffff_fff0 && {B0}.len >= 4 + {B0}.u(0, 4) && {B0}.u(0, 4) >= 4 ==> res is Ok',
                   f'[C05:prefix-eof] {B0}.len >= 4 && ({B0}.len < px_ilen({B0}) + px_len({B0}) || 0 < px_len({B0}) < px_idsz({B0}, Section::is_eh())) ==> res is Err',
                   f'[C01:progress] res is Ok ==> {IN1}.len < {B0}.len',
                   FRAME])
     sk.add(M, pp)
 
 
+def group2b(ctx, sk):
+    cfi = Source('read/cfi.rs', ctx)
+    M = 'read::cfi'
+    SEC = 'section.sec()'
+    EH = 'Section::is_eh()'
+    BE = 'sb(&bases.eh_frame, None)'
+
+    # ---- Augmentation::parse
+    S0 = 'old(augmentation_str).rv()'
+    au = cfi.item(r'^impl Augmentation \{', label='Augmentation').clean().own(OWN)
+    AUG_INV = (f'invariant within({S0}, augmentation_str.rv()), within({IN0}, input.rv()), inside({SEC}, input.rv()), '
+               f'valid_address_size(address_size), {S0}.len > 0, '
+               f'parsed_first == (augmentation_str.rv().start > {S0}.start), '
+               '({ let st = AugSt { lsda: opt_enc(augmentation.lsda), pers: aug_pers(augmentation.personality), fde: opt_enc(augmentation.fde_address_encoding), '
+               'sig: augmentation.is_signal_trampoline, first: parsed_first, data: (match data { Some(d) => Some(d.rv()), None => None }), input: input.rv() }; '
+               f'aug_fold({S0}, 0, aug_init({IN0}), {BE}, {SEC}.start, address_size) == aug_fold({S0}, (augmentation_str.rv().start - {S0}.start) as nat, st, {BE}, {SEC}.start, address_size) '
+               '&& aug_is(augmentation, st) }), '
+               f'(data matches Some(d) ==> inside({SEC}, d.rv())), (data is Some ==> parsed_first), '
+               f'(parsed_first ==> ({S0}.at(0) == 0x7a || {S0}.at(0) == 0x53)), '
+               '\n decreases augmentation_str.rv().len')
+    # type annotation (insertion only): the invariant mentions `data` before rustc has inferred its type
+    au.insert_after('let mut data', ': Option<R>')
+    au.splice('parse', ret='res', canary=True,
+              requires=[f'{S0}.len > 0', f'[C10:offset-from-pre] inside({SEC}, {IN0})', 'valid_address_size(address_size)'],
+              ensures=[
+                  f'[C05:aug-fold] res matches Ok(a) ==> (aug_fold({S0}, 0, aug_init({IN0}), {BE}, {SEC}.start, address_size) matches Some(st) && aug_is(a, st) && {IN1} == st.input)',
+                  f'[C05:aug-unknown] ({{ let c = {S0}.at(0); c != 0x7a && c != 0x53 }}) ==> res is Err',
+                  FRAME],
+              loops={0: AUG_INV})
+    sk.add(M, au)
+    # 'P' consumes data: relation between exec personality and the model
+    sk.add(M, 'spec fn aug_pers(p: Option<(constants::DwEhPe, Pointer)>) -> Option<(u8, int)> { match p { Some(ep) => Some((ep.0.0, ptr_val(ep.1) as int)), None => None } }',
+           label='ghost(aug_pers)')
+
+    # ---- AugmentationData::parse
+    ad = cfi.item(r'^impl AugmentationData \{', label='AugmentationData').clean().own(OWN)
+    ad.splice('parse', ret='res', canary=True,
+              requires=[f'pe_params_ok(encoding_parameters, {IN0})'],
+              ensures=[
+                  f'[C05:fde-aug-data] res matches Ok(a) ==> ({{ let r2 = {IN0}; let l = r2.leb_len(0); let n = r2.uleb(0); '
+                  'let d = RView { root: r2.root, be: r2.be, start: r2.start + l, len: n }; '
+                  f'r2.leb_ok(0) && l + n <= r2.len && {IN1} == rv_adv(r2, l + n) && '
+                  '(match augmentation.lsda { None => a.lsda is None, Some(le) => pe_valid(le.0) && !pe_omit(le.0) && '
+                  '(pe_base(pe_app(le.0), pb(encoding_parameters), (d.start - encoding_parameters.section.rv().start) as nat, encoding_parameters.address_size) matches Some(lb) '
+                  '&& pe_size(d, pe_format(le.0), encoding_parameters.address_size) <= d.len '
+                  '&& (a.lsda matches Some(p) && ptr_is(p, le.0, pe_ptr(lb, pe_val(d, pe_format(le.0), encoding_parameters.address_size), encoding_parameters.address_size)))) }) })',
+                  FRAME])
+    sk.add(M, ad)
+
+
+def group2c(ctx, sk):
+    cfi = Source('read/cfi.rs', ctx)
+    M = 'read::cfi'
+    SEC = 'section.sec()'
+    EH = 'Section::is_eh()'
+    BE = 'sb(&bases.eh_frame, None)'
+    PR = 'prefix.rest.rv()'
+
+    # ---- CommonInformationEntry::{parse, from_prefix}
+    ci = cfi.item(r'^impl<R: Reader> CommonInformationEntry<R> \{', label='CommonInformationEntry(parse)').clean().own(OWN)
+    ERRC = 'Err::<CommonInformationEntry<R>, Error>'
+    ci.splice('from_prefix', ret='res', canary=True,
+              requires=[f'[C10:offset-from-pre] inside({SEC}, {PR})', SEC_OK],
+              ensures=[
+                  f'[C05:cie-fields][C10:view] res matches Ok(c) ==> (cie_model({PR}, {EH}, section.asz(), {BE}, {SEC}.start) matches Some(m) && cie_is(c, m)) '
+                  '&& c.offset == prefix.offset && c.length == prefix.length && c.format == prefix.format',
+                  f'[C05:cie-version] {PR}.len >= 1 && !({PR}.at(0) == 1 || {PR}.at(0) == 3 || {PR}.at(0) == 4) ==> res == {ERRC}(Error::UnknownVersion({PR}.at(0) as u64))',
+                  # (the core layer's reads do not constrain their error values, so rejections are stated as `res is Err`)
+                  f'[C05:cie-segment-size] ({{ let r = {PR}; let q0 = (2 + cstr_len(r, 1)) as int; '
+                  f'r.len >= 1 && r.at(0) == 4 && !{EH} && q0 + 2 <= r.len && r.at(q0 + 1) != 0 ==> res is Err }})',
+                  f'[C05:cie-address-size] ({{ let r = {PR}; let q0 = (2 + cstr_len(r, 1)) as int; '
+                  f'r.len >= 1 && r.at(0) == 4 && !{EH} && q0 + 1 <= r.len && !valid_address_size(r.at(q0)) ==> res is Err }})',
+                  f'[C10:view] res matches Ok(c) ==> inside({PR}, c.initial_instructions.rv())',
+              ],
+              before=[('let mut augmentation_string = rest.read_null_terminated_slice()?;', 'let ghost r1 = rest.rv();')],
+              after=[('let mut augmentation_string = rest.read_null_terminated_slice()?;',
+                      'proof { let n = augmentation_string.rv().len; '
+                      'assert forall|k: int| r1.start <= k < r1.start + n implies #[trigger] r1.root[k] != 0 by { assert(r1.at(k - r1.start) != 0); } '
+                      'lemma_cstr_len(r1.root, r1.start as int, r1.end() as int, n); }')])
+    B0 = IN0
+    ci.splice('parse', ret='res', canary=True,
+              requires=[f'[C10:offset-from-pre] inside({SEC}, {IN0})', SEC_OK],
+              ensures=[
+                  f'[C05:cie-at] res matches Ok(c) ==> cie_at(c, {B0}, {SEC}, {EH}, section.asz(), bases) && adv({B0}, {IN1}, px_ilen({B0}) + px_len({B0}))',
+                  f'[C05:cie-at-not-cie] {B0}.len >= px_ilen({B0}) + px_len({B0}) && px_len({B0}) >= px_idsz({B0}, {EH}) && !id_is_cie({EH}, px_is64({B0}), px_id({B0}, {EH})) ==> res is Err',
+                  f'[C05:cie-at-terminator] px_len({B0}) == 0 ==> res is Err',
+                  FRAME])
+    sk.add(M, ci)
+
+    # accessors (pub): ghost accessors expose the private fields to public contracts
+    ca = cfi.item(r'^impl<R: Reader> CommonInformationEntry<R> \{\s*pub fn offset', label='CommonInformationEntry')
+    ca.drop(['instructions', 'has_lsda', 'is_signal_trampoline', 'personality'])   # CallFrameInstructionIter (batch cfi_unwind); Option::is_some_and unsupported
+    ca.clean().own(OWN)
+    ca.insert_members("""    pub closed spec fn s_offset(&self) -> usize { self.offset }
+    pub closed spec fn s_length(&self) -> usize { self.length }
+    pub closed spec fn s_format(&self) -> Format { self.format }
+    pub closed spec fn s_version(&self) -> u8 { self.version }
+    pub closed spec fn s_address_size(&self) -> u8 { self.address_size }
+    pub closed spec fn s_caf(&self) -> u64 { self.code_alignment_factor }
+    pub closed spec fn s_daf(&self) -> i64 { self.data_alignment_factor }
+    pub closed spec fn s_rar(&self) -> Register { self.return_address_register }
+    pub closed spec fn s_aug(&self) -> Option<Augmentation> { self.augmentation }
+    pub closed spec fn s_instructions(&self) -> RView { self.initial_instructions.rv() }""")
+    for fn, sp in [('offset', 's_offset()'), ('entry_len', 's_length()'), ('version', 's_version()'),
+                   ('code_alignment_factor', 's_caf()'), ('data_alignment_factor', 's_daf()'), ('return_address_register', 's_rar()')]:
+        ca.splice(fn, ret='res', ensures=[f'[C05:cie-accessor] res == self.{sp}'])
+    ca.splice('address_size', ret='res', before=[('self.address_size', 'proof { use_type_invariant(self); }')],
+              ensures=['[C05:cie-accessor] res == self.s_address_size()', '[C01:address-size-validated] valid_address_size(res)'])
+    ca.splice('encoding', ret='res', ensures=['[C05:cie-accessor] res.format == self.s_format() && res.version == self.s_version() as u16 && res.address_size == self.s_address_size()'])
+    ca.splice('augmentation', ret='res', ensures=['[C05:cie-accessor] (match res { Some(a) => self.s_aug() == Some(*a), None => self.s_aug() is None })'])
+    annotate_closure(ca, 'self.augmentation.and_then(', 'a', 'Augmentation', 'Option<constants::DwEhPe>', 'r == a.lsda')
+    annotate_closure(ca, 'self.augmentation.and_then(', 'a', 'Augmentation', 'Option<constants::DwEhPe>', 'r == a.fde_address_encoding')
+    annotate_closure(ca, 'self.augmentation.as_ref().and_then(', 'a', '&Augmentation', 'Option<(constants::DwEhPe, Pointer)>', 'r == a.personality')
+    ca.splice('personality_with_encoding', ret='res', ensures=['[C05:cie-accessor] res == (match self.s_aug() { Some(a) => a.s_personality(), None => None })'])
+    ca.splice('lsda_encoding', ret='res', ensures=['[C05:cie-accessor] res == (match self.s_aug() { Some(a) => a.s_lsda(), None => None })'])
+    ca.splice('fde_address_encoding', ret='res', ensures=['[C05:cie-accessor] res == (match self.s_aug() { Some(a) => a.s_fde_enc(), None => None })'])
+    sk.add(M, ca)
+    sk.add(M, """
+impl Augmentation {
+    pub closed spec fn s_lsda(&self) -> Option<constants::DwEhPe> { self.lsda }
+    pub closed spec fn s_fde_enc(&self) -> Option<constants::DwEhPe> { self.fde_address_encoding }
+    pub closed spec fn s_personality(&self) -> Option<(constants::DwEhPe, Pointer)> { self.personality }
+    pub closed spec fn s_signal(&self) -> bool { self.is_signal_trampoline }
+}""", label='ghost(Augmentation accessors)')
+
+
+PFDE_GHOST = """    /// ghost accessors (the fields are private)
+    pub closed spec fn s_offset(&self) -> usize { self.offset }
+    pub closed spec fn s_length(&self) -> usize { self.length }
+    pub closed spec fn s_format(&self) -> Format { self.format }
+    pub closed spec fn s_cie_ptr(&self) -> Section::Offset { self.cie_offset }
+    pub closed spec fn s_rest(&self) -> RView { self.rest.rv() }
+    pub closed spec fn s_section(&self) -> &Section { &self.section }
+    pub closed spec fn s_bases(&self) -> &BaseAddresses { self.bases }
+    /// ghost: what `parse` relies on: the remaining bytes are a view into the entry's own section, configuration valid
+    pub closed spec fn wf(&self) -> bool { inside(self.section.sec(), self.rest.rv()) && valid_address_size(self.section.asz()) }
+    /// ghost: `self` is the FDE whose entry starts at view `b` of its section: common fields, `rest` = the bytes after the
+    /// CIE_pointer, and the CIE offset is the one the pointer designates
+    pub closed spec fn at(&self, b: RView) -> bool {
+        let sec = self.section.sec();
+        let eh = Section::is_eh();
+        self.offset as nat == b.start - sec.start && self.length as nat == px_len(b) && self.format == px_format(b)
+        && !id_is_cie(eh, px_is64(b), px_id(b, eh)) && self.rest.rv() == px_rest(b, eh)
+        && self.cie_offset.off() as int == px_cie_offset(b, eh, self.offset as nat)
+    }"""
+
+FDE_GHOST = """    pub closed spec fn s_offset(&self) -> usize { self.offset }
+    pub closed spec fn s_length(&self) -> usize { self.length }
+    pub closed spec fn s_format(&self) -> Format { self.format }
+    pub closed spec fn s_cie(&self) -> CommonInformationEntry<R> { self.cie }
+    pub closed spec fn s_initial(&self) -> u64 { self.initial_address }
+    pub closed spec fn s_range(&self) -> u64 { self.address_range }
+    pub closed spec fn s_lsda(&self) -> Option<Pointer> { match self.augmentation { Some(a) => a.lsda, None => None } }
+    pub closed spec fn s_instructions(&self) -> RView { self.instructions.rv() }
+    /// ghost: the address interval of the FDE (DWARF 6.4.1): [initial_location, initial_location + address_range) at the CIE's address size
+    pub open spec fn covers(&self, address: u64) -> bool { fde_covers(self.s_initial(), self.s_range(), self.s_cie().s_address_size(), address) }"""
+
+ITER_GHOST = """    pub closed spec fn inp(&self) -> RView { self.input.rv() }
+    pub closed spec fn s_section(&self) -> &Section { &self.section }
+    pub closed spec fn s_bases(&self) -> &BaseAddresses { self.bases }
+    /// ghost: the unread input is a view into the section (or exhausted), configuration valid
+    pub closed spec fn wf(&self) -> bool {
+        valid_address_size(self.section.asz()) && (self.input.rv().len == 0 || inside(self.section.sec(), self.input.rv()))
+    }
+    /// ghost: the view of the remaining section that starts at section offset `off` (where an entry reported by `next` begins)
+    pub open spec fn from_offset(&self, off: usize) -> RView {
+        rv_from(self.inp(), self.s_section().sec().start + off, self.inp().end())
+    }"""
+
+
+def group2d(ctx, sk):
+    cfi = Source('read/cfi.rs', ctx)
+    M = 'read::cfi'
+    SEC = 'section.sec()'
+    EH = 'Section::is_eh()'
+    B0 = IN0
+
+    # ---- PartialFrameDescriptionEntry
+    pf = cfi.item(r"^impl<'bases, Section, R> PartialFrameDescriptionEntry<'bases, Section, R>", label='PartialFrameDescriptionEntry')
+    pf.custom('R-CLONE', 'section: section.clone(),', 'section: section_clone(section),')
+    pf.custom('R-CLONE', 'self.rest.clone(),', 'reader_clone(&self.rest),')
+    pf.clean().own(OWN)
+    pf.insert_members(PFDE_GHOST)
+    ID = 'prefix.cie_id_or_offset'
+    pf.splice('from_prefix', ret='res', canary=True,
+              requires=[f'inside({SEC}, prefix.rest.rv())', SEC_OK],
+              ensures=[
+                  f'[C05:fde-cie-pointer] res matches Ok(f) ==> f.s_cie_ptr().off() as int == (if {EH} {{ prefix.cie_offset_base - {ID} }} else {{ {ID} as int }}) && ({EH} ==> {ID} <= prefix.cie_offset_base)',
+                  '[C05:fde-prefix-fields][C10:view] res matches Ok(f) ==> f.s_offset() == prefix.offset && f.s_length() == prefix.length && f.s_format() == prefix.format '
+                  f'&& f.s_rest() == prefix.rest.rv() && f.s_section().sec() == {SEC} && f.s_section().asz() == section.asz() && f.s_bases() == bases && f.wf()',
+                  f'[C05:fde-cie-pointer-underflow] {EH} && {ID} > prefix.cie_offset_base ==> res is Err',
+                  f'[C05:fde-cie-pointer-total] {ID} <= 0xffff_ffff && ({EH} ==> {ID} <= prefix.cie_offset_base) ==> res is Ok'],
+              after=[('bases,\n        };', 'proof { Section::Offset::lemma_from(cie_offset, fde.cie_offset); }')])
+    pf.splice('parse_partial', ret='res', canary=True,
+              requires=[f'[C10:offset-from-pre] inside({SEC}, {IN0})', SEC_OK],
+              ensures=[
+                  f'[C05:pfde-at][C10:view] res matches Ok(f) ==> f.at({B0}) && f.wf() && f.s_section().sec() == {SEC} && f.s_section().asz() == section.asz() && f.s_bases() == bases && adv({B0}, {IN1}, px_ilen({B0}) + px_len({B0}))',
+                  f'[C05:pfde-at-is-cie] {B0}.len >= 4 && (px_len({B0}) == 0 || id_is_cie({EH}, px_is64({B0}), px_id({B0}, {EH}))) ==> res is Err',
+                  FRAME])
+    pf.splice('parse', ret='res', canary=True,
+              requires=['self.wf()', 'get_cie.requires((self.s_section(), self.s_bases(), self.s_cie_ptr()))'],
+              ensures=[
+                  '[C05:fde-cie-binding] res matches Ok(f) ==> get_cie.ensures((self.s_section(), self.s_bases(), self.s_cie_ptr()), Ok::<CommonInformationEntry<R>, Error>(f.s_cie()))',
+                  '[C05:fde-fields][C10:view] res matches Ok(f) ==> f.s_offset() == self.s_offset() && f.s_length() == self.s_length() && f.s_format() == self.s_format() '
+                  '&& fde_body(f, self.s_rest(), self.s_section().sec(), self.s_bases()) && inside(self.s_rest(), f.s_instructions())'])
+    for fn, sp in [('offset', 's_offset()'), ('cie_offset', 's_cie_ptr()'), ('entry_len', 's_length()')]:
+        pf.splice(fn, ret='res', ensures=[f'[C05:fde-accessor] res == self.{sp}'])
+    sk.add(M, pf)
+
+    # ---- FrameDescriptionEntry::{parse_rest, parse_addresses}
+    fp = cfi.item(r'^impl<R: Reader> FrameDescriptionEntry<R> \{\s*fn parse_rest', label='FrameDescriptionEntry(parse)')
+    fp.drop(['rows', 'unwind_info_for_address'])   # UnwindTable / UnwindContext: batch cfi_unwind
+    fp.clean().own(OWN)
+    annotate_closure(fp, 'cie.augmentation().and_then(', 'a', '&Augmentation', 'Option<constants::DwEhPe>', 'r == a.fde_address_encoding')
+    ASZ = 'cie.address_size'
+    ENC = 'opt_enc(match cie.augmentation { Some(a) => a.fde_address_encoding, None => None })'
+    fp.splice('parse_addresses', ret='res', canary=True,
+              requires=[f'pe_params_ok(parameters, {IN0})', f'parameters.address_size == {ASZ}'],
+              ensures=[
+                  f'[C05:fde-addresses] res matches Ok(p) ==> ({{ let r = {IN0}; match {ENC} {{ '
+                  f'None => p.0 as nat == r.u(0, {ASZ} as int) && p.1 as nat == rv_adv(r, {ASZ} as nat).u(0, {ASZ} as int) && {IN1} == rv_adv(rv_adv(r, {ASZ} as nat), {ASZ} as nat) && 2 * {ASZ} <= r.len, '
+                  f'Some(e) => ({{ let f = pe_format(e); let s1 = pe_size(r, f, {ASZ}); let r1 = rv_adv(r, s1); let s2 = pe_size(r1, f, {ASZ}); '
+                  f'pe_valid(e) && !pe_omit(e) && s1 + s2 <= r.len && {IN1} == rv_adv(r1, s2) '
+                  f'&& (pe_base(pe_app(e), pb(parameters), (r.start - parameters.section.rv().start) as nat, {ASZ}) matches Some(b) && p.0 as int == pe_ptr(b, pe_val(r, f, {ASZ}), {ASZ})) '
+                  f'&& p.1 as int == twos64(pe_val(r1, f, {ASZ})) }}) }} }})',
+                  FRAME])
+    fp.splice('parse_rest', ret='res', canary=True,
+              requires=[f'[C10:offset-from-pre] inside({SEC}, rest.rv())', 'get_cie.requires((section, bases, cie_pointer))'],
+              ensures=[
+                  '[C05:fde-cie-binding] res matches Ok(f) ==> get_cie.ensures((section, bases, cie_pointer), Ok::<CommonInformationEntry<R>, Error>(f.cie))',
+                  f'[C05:fde-fields][C10:view] res matches Ok(f) ==> f.offset == offset && f.length == length && f.format == format && fde_body(f, rest.rv(), {SEC}, bases) && inside(rest.rv(), f.instructions.rv())'],
+              after=[('let cie = get_cie(section, bases, cie_pointer)?;', 'proof { use_type_invariant(&cie); }')])
+    sk.add(M, fp)
+
+    fa = cfi.item(r'^impl<R: Reader> FrameDescriptionEntry<R> \{\s*pub fn offset', label='FrameDescriptionEntry')
+    fa.drop(['instructions', 'is_signal_trampoline', 'personality'])
+    fa.clean().own(OWN)
+    fa.insert_members(FDE_GHOST)
+    for fn, sp in [('offset', 's_offset()'), ('entry_len', 's_length()'), ('initial_address', 's_initial()'), ('len', 's_range()')]:
+        fa.splice(fn, ret='res', ensures=[f'[C05:fde-accessor] res == self.{sp}'])
+    fa.splice('cie', ret='res', ensures=['[C05:fde-accessor] *res == self.s_cie()'])
+    annotate_closure(fa, 'self.augmentation.as_ref().and_then(', 'a', '&AugmentationData', 'Option<Pointer>', 'r == a.lsda')
+    fa.splice('lsda', ret='res', ensures=['[C05:fde-accessor] res == self.s_lsda()'])
+    fa.splice('end_address', ret='res', ensures=['[C05:fde-end] res as int == fde_end(self.s_initial(), self.s_range(), self.s_cie().s_address_size())'],
+              before=[('self.initial_address\n', 'proof { use_type_invariant(self); }')])
+    fa.splice('contains', ret='res', ensures=['[C05:fde-contains] res == self.covers(address)'])
+    sk.add(M, fa)
+
+    # ---- parse_cfi_entry
+    pe = cfi.item(r"^fn parse_cfi_entry<'bases, Section, R>").clean().own(OWN)
+    pe.splice('parse_cfi_entry', ret='res', canary=True,
+              requires=[f'[C10:offset-from-pre] inside({SEC}, {IN0})', SEC_OK],
+              ensures=[
+                  f'[C05:entry-cie] res matches Ok(Some(CieOrFde::Cie(c))) ==> cie_at(c, {B0}, {SEC}, {EH}, section.asz(), bases)',
+                  f'[C05:entry-fde][C10:view] res matches Ok(Some(CieOrFde::Fde(f))) ==> f.at({B0}) && f.wf() && f.s_section().sec() == {SEC} && f.s_section().asz() == section.asz() && f.s_bases() == bases',
+                  f'[C05:entry-consumed] res matches Ok(Some(e)) ==> adv({B0}, {IN1}, px_ilen({B0}) + px_len({B0}))',
+                  f'[C05:entry-terminator] res matches Ok(None) ==> px_len({B0}) == 0 && adv({B0}, {IN1}, px_ilen({B0}))',
+                  f'[C05:entry-terminator] res is Ok && px_len({B0}) == 0 ==> res matches Ok(None)',
+                  f'[C01:progress] res is Ok ==> {IN1}.len < {B0}.len',
+                  FRAME])
+    sk.add(M, pe)
+
+    # ---- CfiEntriesIter::next
+    sk.add(M, cfi.item(r"^pub struct CfiEntriesIter<'bases, Section, R>").clean(rejrec=['R', 'Section']))
+    it = cfi.item(r"^impl<'bases, Section, R> CfiEntriesIter<'bases, Section, R>", label='CfiEntriesIter').clean().own(OWN)
+    it.insert_members(ITER_GHOST)
+    O, F = 'old(self)', 'final(self)'
+    it.splice('next', ret='res', canary=True,
+              requires=[f'{O}.wf()'],
+              ensures=[
+                  f'{F}.wf() && {F}.s_section() == {O}.s_section() && {F}.s_bases() == {O}.s_bases()',
+                  f'[C01:iter-empty] {O}.inp().len == 0 ==> res matches Ok(None) && {F}.inp() == {O}.inp()',
+                  f'[C01:iter-err-empties] res is Err ==> {F}.inp().len == 0',
+                  f'[C01:iter-progress] res matches Ok(Some(e)) ==> {F}.inp().len < {O}.inp().len && within({O}.inp(), {F}.inp())',
+                  f'[C01:iter-none-final] res matches Ok(None) ==> {F}.inp().len == 0',
+                  f'[C05:iter-entry-cie] res matches Ok(Some(CieOrFde::Cie(c))) ==> cie_at(c, {O}.from_offset(c.s_offset()), {O}.s_section().sec(), Section::is_eh(), {O}.s_section().asz(), {O}.s_bases()) '
+                  f'&& {O}.inp().start <= {O}.s_section().sec().start + c.s_offset() && {F}.inp() == rv_adv({O}.from_offset(c.s_offset()), px_ilen({O}.from_offset(c.s_offset())) + c.s_length() as nat)',
+                  f'[C05:iter-entry-fde][C10:view] res matches Ok(Some(CieOrFde::Fde(f))) ==> f.at({O}.from_offset(f.s_offset())) && f.wf() && f.s_section().sec() == {O}.s_section().sec() && f.s_bases() == {O}.s_bases() '
+                  f'&& {O}.inp().start <= {O}.s_section().sec().start + f.s_offset() && {F}.inp() == rv_adv({O}.from_offset(f.s_offset()), px_ilen({O}.from_offset(f.s_offset())) + f.s_length() as nat)',
+                  f'[C05:iter-eh-terminator] Section::is_eh() && {O}.inp().len >= 4 && px_len({O}.inp()) == 0 ==> !(res matches Ok(Some(_)))',
+              ],
+              loops={0: f'invariant within({O}.input.rv(), self.input.rv()), self.wf(), self.section == {O}.section, self.bases == {O}.bases, '
+                        f'({O}.input.rv().len > 0 ==> inside(self.section.sec(), self.input.rv())), '
+                        f'(Section::is_eh() ==> self.input.rv() == {O}.input.rv()),\n decreases self.input.rv().len'})
+    sk.add(M, it)
+
+
 def populate(ctx, sk):
     group1(ctx, sk)
     group2(ctx, sk)
+    group2b(ctx, sk)
+    group2c(ctx, sk)
+    group2d(ctx, sk)
     return sk
 
 
